@@ -65,7 +65,7 @@ _CHAIN_NOTE = ("Trusted: Lean kernel; Model/Chain.lean renders invocation.go/pro
 
 PROPS = {
     "C15": dict(
-        tie=["Ucan.Props.Tie.Command", "Ucan.Props.Tie.CommandCovers", "Ucan.Props.Tie.CommandJoin"],
+        tie=["Ucan.Props.Tie.Command", "Ucan.Props.Tie.CommandCovers", "Ucan.Props.Tie.CommandJoin", "Ucan.Props.Tie.CommandApi"],
         props_module="Ucan.Props.C15",
         streams=["command"],
         technique="Lean 4 proof (induction over byte lists) of fast-path Covers ⇔ segment prefix, partial-order laws, parser grammar, Join; model tied to the code by an exhaustive small-domain differential run",
@@ -196,7 +196,7 @@ PROPS = {
         level_note=_TOKEN_NOTE + " The component round trips are hypotheses of the theorems (DID: C16_parse_print; command: C15_parse_ok_iff; policy: C14_policy_roundtrip + the not-yet-proved selector print/parse idempotence).",
     ),
     "C10": dict(
-        tie=["Ucan.Props.Tie.ParseTime"],
+        tie=["Ucan.Props.Tie.ParseTime", "Ucan.Props.Tie.Command", "Ucan.Props.Tie.CommandApi"],
         props_module="Ucan.Props.C10",
         streams=["token"],
         # field cases count in ONE direction: something malformed is accepted (or accepted with another value than the model
